@@ -256,6 +256,11 @@ namespace sim
       { "stream.", P15 }, { "fwd.", P15 }, { "gen.", P15 }, { "cmp.", P16 }, { "nm.", P16 },
       { "std.", P17 }, { "noexcept.", P18 }
     };
+    // a block held by / freed through an allocator that is not equal to the one that produced it
+    // breaks the ownership clauses of C02 and C04 and C07's "all later storage traffic uses the
+    // container's current allocator"
+    if (0 == std::strcmp (oracle, "inv.block_owner") || 0 == std::strcmp (oracle, "mem.unequal_alloc"))
+      return pbit (P02) | pbit (P04) | pbit (P07);
     for (unsigned i = 0; i < sizeof (rows) / sizeof (rows[0]); ++i)
       if (0 == std::strncmp (oracle, rows[i].prefix, std::strlen (rows[i].prefix)))
         return pbit (rows[i].p);
